@@ -150,11 +150,12 @@ func ZZ_C15_Matching() {
 	srvWire := zzWire(b)
 	results := make([]int, m)
 	errs := make([]error, m)
+	bufs := make([][]byte, m)
 	done := make(chan int, m)
 	for i := 0; i < m; i++ {
+		bufs[i] = make([]byte, 1)
 		go func(k int) {
-			buf := make([]byte, 1)
-			results[k], errs[k] = cl.operation(TypeRead, buf, int64(100+k), 1)
+			results[k], errs[k] = cl.operation(TypeRead, bufs[k], int64(100+k), 1)
 			done <- k
 		}(i)
 	}
@@ -202,6 +203,8 @@ func ZZ_C15_Matching() {
 	for k := 0; k < m; k++ {
 		zzAssert(errs[k] == nil, "C15.match.request-failed")
 		zzAssert(results[k] == 100+k, "C15.match.reply-delivered-to-wrong-request")
+		// the payload handed to the request is the one of its own reply
+		zzAssert(bufs[k][0] == byte(100+k), "C15.match.payload-of-another-reply")
 	}
 	zzAssert(len(cl.messages) == 0, "C15.match.request-left-pending")
 	zzReach("C15.match.done")
